@@ -305,12 +305,14 @@ class SandboxedEnvironment(Environment):
                 except AttributeError:
                     pass
                 else:
+                    # Check the attribute first: a bound str.format stored
+                    # under an unsafe name must not be handed out wrapped.
+                    if not self.is_safe_attribute(obj, argument, value):
+                        return self.unsafe_undefined(obj, argument)
                     fmt = self.wrap_str_format(value)
                     if fmt is not None:
                         return fmt
-                    if self.is_safe_attribute(obj, argument, value):
-                        return value
-                    return self.unsafe_undefined(obj, argument)
+                    return value
         return self.undefined(obj=obj, name=argument)
 
     def getattr(self, obj: t.Any, attribute: str) -> t.Any | Undefined:
@@ -325,12 +327,14 @@ class SandboxedEnvironment(Environment):
             except (TypeError, LookupError):
                 pass
         else:
+            # Check the attribute first: a bound str.format stored
+            # under an unsafe name must not be handed out wrapped.
+            if not self.is_safe_attribute(obj, attribute, value):
+                return self.unsafe_undefined(obj, attribute)
             fmt = self.wrap_str_format(value)
             if fmt is not None:
                 return fmt
-            if self.is_safe_attribute(obj, attribute, value):
-                return value
-            return self.unsafe_undefined(obj, attribute)
+            return value
         return self.undefined(obj=obj, name=attribute)
 
     def unsafe_undefined(self, obj: t.Any, attribute: str) -> Undefined:
